@@ -72,6 +72,21 @@ CHECKS['C18'] = dict(engine='hypothesis/grdrv (history command)', technique='mod
          'feature-value objects judged by a dictionary model; labels compared with the name-table strings across encodings. Exploration level.',
     note='Trusted: the model in py/props/c18.py; fontsynth table writers. Feature id 1 and > 256 features are outside the generator.', ref='5/C18')
 
+CHECKS['C08'] = dict(engine='hypothesis/grdrv (history command)', technique='stateful property-based testing: generated API call histories on one face, differential against a cold face',
+    text='Histories of segment creations/destructions, fonts, feature-value objects, label and support queries, justifications and reports on one face (lazy and preloaded); every '
+         'probe segment must equal the segment a cold face produces and the face report must never change. Exploration level.',
+    note='Trusted: segment dump (public API, exact floats). Probes use default feature values; fonts are shipped, C06-regime and wild synthesised.', ref='5/C08')
+CHECKS['C10'] = dict(engine='hypothesis/grdrv', technique='differential property-based testing across all 16 (options x table source) configurations',
+    text='Each generated (font, text, direction, encoding, features) case is shaped under all 8 option values x {callbacks, file}; dumps and face reports must equal the reference configuration exactly. Exploration level.',
+    note='Trusted: dump/report comparison. Fonts are well-formed (shipped or fontsynth).', ref='5/C10')
+CHECKS['C15'] = dict(engine='hypothesis/grdrv', technique='metamorphic property-based testing: font = P ppm vs font = NULL scaled by P/upem, stated single-precision tolerance',
+    text='Generated cases x ppm in (0,4096]: glyphs/attachments/associations identical to the NULL-font segment; origins and advances within 1e-5 x extent x scale of the linear scaling. Exploration level.',
+    note='Trusted: tolerance bound (DESIGN 5/C15); unhinted fonts only.', ref='5/C15')
+CHECKS['C19'] = dict(engine='hypothesis/grdrv (history command)', technique='property-based testing of generated linebreak/justify call sequences with a chain-integrity oracle and a confirmed watchdog',
+    text='Segments are cut into lines at generated cluster boundaries and justified with generated widths/flags/sub-ranges; after every call all line chains must hold the same '
+         'slots in the same order with prev the inverse, values finite, glyphs unchanged without a justification pass, sanitizers silent. Known finding KF2 excluded by construction. Exploration level.',
+    note='Trusted: line-state observation in harness/drv_scenarios.h; watchdog confirmation (3x60 s).', ref='5/C19')
+
 NOT_YET = {}
 
 def main():
